@@ -200,7 +200,9 @@ func (MonC04) State(x *Exec) *Violation {
 	for _, p := range u.Prefixes {
 		exp := PrefixExpected(u, x.Ref, p)
 		q := Query{Kind: SeqPrefix, A: p}
-		got, pan := collectSafe(x.D, q)
+		var seq func(func(Pair) bool)
+		var got []Pair
+		pan := safely(func() { seq = x.D.Seq(q); got = Collect(seq) })
 		x.Stats.Evaluations++
 		if len(exp) > 0 {
 			x.Stats.Nontrivial++
@@ -211,6 +213,21 @@ func (MonC04) State(x *Exec) *Violation {
 		}
 		if !PairsEqual(got, exp) {
 			return viol(what, PairsString(u, exp), PairsString(u, got))
+		}
+		if len(exp) >= 2 {
+			// the same sequence value again, after a pass abandoned at its first element
+			var again []Pair
+			pan := safely(func() {
+				seq(func(Pair) bool { return false })
+				again = Collect(seq)
+			})
+			x.Stats.Evaluations++
+			if pan != "" {
+				return viol(what+" (second pass after an abandoned one)", PairsString(u, exp), "panic: "+pan)
+			}
+			if !PairsEqual(again, exp) {
+				return viol(what+" (second pass after an abandoned one)", PairsString(u, exp), PairsString(u, again))
+			}
 		}
 	}
 	return nil
